@@ -7,6 +7,10 @@ use std::time::Instant;
 
 pub const HTTP2_CONNECTION_PREFACE: &[u8] = b"PRI * HTTP/2.0\r\n\r\nSM\r\n\r\n";
 
+const FLAG_END_HEADERS: u8 = 0x4;
+const FLAG_PADDED: u8 = 0x8;
+const FLAG_PRIORITY: u8 = 0x20;
+
 #[derive(Debug, Clone, PartialEq)]
 #[repr(u8)]
 pub enum Http2FrameType {
@@ -555,30 +559,80 @@ impl<'a> Http2Parser<'a> {
         let stream_frames: Vec<&Http2Frame> =
             frames.iter().filter(|f| f.stream_id == stream_id).collect();
 
+        // A header block is the HEADERS fragment (without pad length, priority fields and
+        // padding) followed by the payloads of its CONTINUATION frames (RFC 7540 section 4.3);
+        // it is decoded as one unit once END_HEADERS is seen.
+        let mut blocks: Vec<Vec<u8>> = Vec::new();
+        let mut open_block: Option<Vec<u8>> = None;
         for frame in stream_frames {
             match frame.frame_type {
-                Http2FrameType::Headers | Http2FrameType::Continuation => {
-                    let frame_headers = self.parse_headers_payload(&frame.payload)?;
-                    for header in frame_headers {
-                        match header.name.as_str() {
-                            ":method" => method = Some(header.value.clone().unwrap_or_default()),
-                            ":path" => path = Some(header.value.clone().unwrap_or_default()),
-                            ":authority" => {
-                                authority = Some(header.value.clone().unwrap_or_default())
-                            }
-                            ":scheme" => scheme = Some(header.value.clone().unwrap_or_default()),
-                            ":status" => {
-                                status = header.value.as_ref().and_then(|v| v.parse().ok())
-                            }
-                            _ => headers.push(header),
+                Http2FrameType::Headers => {
+                    if let Some(block) = open_block.take() {
+                        blocks.push(block);
+                    }
+                    let block = Self::header_block_fragment(frame)?.to_vec();
+                    if frame.flags & FLAG_END_HEADERS != 0 {
+                        blocks.push(block);
+                    } else {
+                        open_block = Some(block);
+                    }
+                }
+                Http2FrameType::Continuation => {
+                    if let Some(mut block) = open_block.take() {
+                        block.extend_from_slice(&frame.payload);
+                        if frame.flags & FLAG_END_HEADERS != 0 {
+                            blocks.push(block);
+                        } else {
+                            open_block = Some(block);
                         }
                     }
                 }
                 _ => {}
             }
         }
+        if let Some(block) = open_block.take() {
+            blocks.push(block);
+        }
+
+        for block in &blocks {
+            let frame_headers = self.parse_headers_payload(block)?;
+            for header in frame_headers {
+                match header.name.as_str() {
+                    ":method" => method = Some(header.value.clone().unwrap_or_default()),
+                    ":path" => path = Some(header.value.clone().unwrap_or_default()),
+                    ":authority" => authority = Some(header.value.clone().unwrap_or_default()),
+                    ":scheme" => scheme = Some(header.value.clone().unwrap_or_default()),
+                    ":status" => status = header.value.as_ref().and_then(|v| v.parse().ok()),
+                    _ => headers.push(header),
+                }
+            }
+        }
 
         Ok(Http2Stream { stream_id, headers, method, path, authority, scheme, status })
+    }
+
+    /// Header block fragment of a HEADERS frame: the payload without the pad length octet,
+    /// the priority fields and the trailing padding (RFC 7540 section 6.2).
+    fn header_block_fragment(frame: &Http2Frame) -> Result<&[u8], Http2ParseError> {
+        let mut fragment: &[u8] = &frame.payload;
+        let mut pad_length: usize = 0;
+        if frame.flags & FLAG_PADDED != 0 {
+            let (first, rest) = fragment
+                .split_first()
+                .ok_or(Http2ParseError::InvalidFrameLength(frame.length))?;
+            pad_length = usize::from(*first);
+            fragment = rest;
+        }
+        if frame.flags & FLAG_PRIORITY != 0 {
+            fragment = fragment
+                .get(5..)
+                .ok_or(Http2ParseError::InvalidFrameLength(frame.length))?;
+        }
+        let end = fragment
+            .len()
+            .checked_sub(pad_length)
+            .ok_or(Http2ParseError::InvalidFrameLength(frame.length))?;
+        Ok(&fragment[..end])
     }
 
     fn parse_headers_payload(&self, payload: &[u8]) -> Result<Vec<HttpHeader>, Http2ParseError> {
